@@ -105,23 +105,26 @@ class LocationPath(BaseASTNode):
     def __findIntermediateNodes(self, old, new, queryIndirect):
         """Find nodes that are on on any path between 'old' and 'new'"""
 
-        visited = set()
+        if old.issuperset(new): return set()
+
+        # all nodes that are reachable from 'old'
+        reachable = set()
+        todo = set(old)
+        while todo:
+            node = todo.pop()
+            if node in reachable: continue
+            reachable.add(node)
+            todo.update(i.node for i in node.values()
+                        if (queryIndirect or i.direct))
+
+        # of these keep the ones from which 'new' is reachable
         intermediate = set()
-        if old.issuperset(new): return intermediate
-
-        def traverse(node, stack):
-            if node in visited: return
-
-            if node in new:
-                intermediate.update(stack)
-            else:
-                stack = stack + [node]
-                for i in node.values():
-                    if queryIndirect or i.direct:
-                        traverse(i.node, stack)
-                visited.add(node)
-
-        for n in old: traverse(n, [])
+        todo = set(new)
+        while todo:
+            node = todo.pop()
+            if (node in intermediate) or (node not in reachable): continue
+            intermediate.add(node)
+            todo.update(node.parents(queryIndirect))
 
         return intermediate
 
